@@ -380,7 +380,7 @@ Definition cl_read_header_field (rseen : bool) (status : Z) (r : cresponse) (k v
     else
       match parse_uint v with
       | Some n =>
-        if ((n <? 100) || (999 <? n) || negb (status =? 0))%Z then (rseen, status, r, Some CEMalformed)
+        if negb (len v =? 3) || ((n <? 100) || (999 <? n) || negb (status =? 0))%Z then (rseen, status, r, Some CEMalformed)
         else (rseen, n, cl_resp_set_status r n, None)
       | None => (rseen, status, r, Some CEMalformed)
       end
@@ -702,7 +702,9 @@ Fixpoint cl_send_pending (fuel : nat) (c : cconn) (id : N) : cconn * cl_spres :=
         else
           match cl_acquire_for [] c2 (pb_tag pb) id with
           | CLRefused =>
-            let '(c3, stuck) := cl_delete_pending 1 [] c2 id in
+            (* nothing of the chunk goes out: the connection window gets it back (addWindow(0, n)) *)
+            let c2' := if (0 <? n)%Z then cl_add_window c2 0 n else c2 in
+            let '(c3, stuck) := cl_delete_pending 1 [] c2' id in
             (c3, if stuck then CSPStuck else CSPOk)
           | CLBlocked | CLSelf => (cl_go_stuck 1 [] c2 false (pb_tag pb), CSPStuck)
           | CLOk =>
@@ -1048,7 +1050,10 @@ Definition cl_dispatch (c : cconn) (fr : sframe) : cconn * cl_dres :=
           if (cc_hdrStatus c1 =? 0)%Z then
             if negb (ct_gotStatus x) || negb (cc_hdrEndStream c1) then (ok1, CRSStream CEMalformed) else (ok1, CRSNone)
           else if ct_gotStatus x then (ok1, CRSStream CEMalformed)
-          else (Some (ctu_gotStatus x (200 <=? cc_hdrStatus c1)%Z), CRSNone)
+          else
+            let final := (200 <=? cc_hdrStatus c1)%Z in
+            (* an interim response cannot be what ends the stream *)
+            (Some (ctu_gotStatus x final), if negb final && cc_hdrEndStream c1 then CRSStream CEMalformed else CRSNone)
         else (ok1, err)
       | _, _ => (ok1, err)
       end in
